@@ -124,7 +124,8 @@ CHECKS.update({
  "C04": dict(bounded_only("", "DESIGN.md §5 C04"),
         text="Language lemmas about the real changelog patterns are proved for all lines by SMT (well-formed headers match topline, topline "
              "matches contain ';', trailer head and date are accepted by endline's parts, change / blank / header / trailer lines cannot be "
-             "confused). The parser state machine and the formatter (byte-identical round trip, exposed components) are decided by a bounded "
+             "confused), and ChangeBlock._format is verified from its AST to write header, change lines, trailer and trailing lines exactly "
+             "from the stored components. The parser state machine (byte-identical round trip, exposed components) is decided by a bounded "
              "stand-in on texts generated from the deb-changelog(5) grammar.",
         technique="regex-to-SMT language lemmas on the real patterns + bounded stand-in (grammar-generated texts)"),
  "C04-old": bounded_only("texts generated from the deb-changelog(5) grammar with known components are parsed strictly with warnings as errors; "
